@@ -35,15 +35,16 @@ include!("c15_util/segmerge.rs");
 
 fn main() {
     let ctx = Ctx::from_env("C15", "exploration");
-    let mut rep = run_cases(&ctx, "sst", ctx.scale(400, 19_000) as u64, |c, r, rep| {
-        sst_case(c, r, rep, !ctx.quick())
-    });
-    rep.merge(run_cases(&ctx, "fst", ctx.scale(120, 6_000) as u64, |c, r, rep| {
+    // cheap streams first: if the soft deadline ever cuts the run it only trims the last stream
+    let mut rep = run_cases(&ctx, "ooo", ctx.scale(200, 10_000) as u64, ooo_case);
+    rep.merge(run_cases(&ctx, "merge", ctx.scale(80, 6_000) as u64, merge_case));
+    rep.merge(run_cases(&ctx, "segmerge", ctx.scale(20, 500) as u64, segmerge_case));
+    rep.merge(run_cases(&ctx, "fst", ctx.scale(120, 12_000) as u64, |c, r, rep| {
         fst_case(c, r, rep, !ctx.quick())
     }));
-    rep.merge(run_cases(&ctx, "ooo", ctx.scale(200, 6_000) as u64, ooo_case));
-    rep.merge(run_cases(&ctx, "merge", ctx.scale(80, 3_000) as u64, merge_case));
-    rep.merge(run_cases(&ctx, "segmerge", ctx.scale(20, 300) as u64, segmerge_case));
+    rep.merge(run_cases(&ctx, "sst", ctx.scale(400, 40_000) as u64, |c, r, rep| {
+        sst_case(c, r, rep, !ctx.quick())
+    }));
     simple_finish(
         &ctx,
         rep,
